@@ -95,18 +95,17 @@ pub uninterp spec fn plan_from_scratch(ops: Seq<FileSystemOperation>, arts: Seq<
 pub uninterp spec fn plan_from_state(ops: Seq<FileSystemOperation>, old: Seq<ArtifactPathAndContent>, new: Seq<ArtifactPathAndContent>, dir: Path) -> bool;
 
 /// write_artifacts::apply_file_system_operations performs std::fs calls; its body is NOT
-/// verified here. Contract: may only be called with artifacts of a successful generation
+/// verified here (unit fs_state does that); only its REAL HEADER is extracted (stub=1). Contract: may only be called with artifacts of a successful generation
 /// (C17) and a plan computed for exactly those artifacts.
 pub uninterp spec fn apply_result(ops: Seq<FileSystemOperation>, artifacts: Seq<ArtifactPathAndContent>) -> Result<usize, LocationFreeDiagnostic>;
-#[verifier::external_body]
-pub fn apply_file_system_operations(operations: &[FileSystemOperation], artifacts: &[ArtifactPathAndContent])
-    -> (r: LocationFreeDiagnosticResult<usize>)
+//@fn rel=crates/isograph_compiler/src/write_artifacts.rs name=apply_file_system_operations vis=pub ret=r stub=1 serves=C17,C18,C19
+//@contract
     requires
         generated_ok(artifacts@), //@O C17.O-1_apply_only_after_successful_generation
         exists|dir: Path| plan_from_scratch(operations@, artifacts@, dir)
             || exists|old: Seq<ArtifactPathAndContent>| plan_from_state(operations@, old, artifacts@, dir), //@O C18.O-5_applied_plan_is_for_these_artifacts
     ensures r == apply_result(operations@, artifacts@),
-{ unimplemented!() }
+//@end
 
 #[verifier::external_body]
 pub struct Instant { p: core::marker::PhantomData<u8> }
